@@ -104,6 +104,12 @@ def real_run(c, n, flush, subdiv, pause_at, sched):
 
     def rec_body():
         try:
+            if sh("restart", 0):
+                c.update(MSGS[4])
+                c.stop()
+                for k, ds in enumerate(c.datasets):
+                    ds.file_name_fmt = "second%d" % k
+                c.start()
             for i in range(n):
                 if flush[i]:
                     Clock.t += 20.0
@@ -262,6 +268,13 @@ def mk_collection(root, fmt, nsets):
 
 
 def recorder(c, n, flush, subdiv, pause_at):
+    if sh("restart", 0):
+        # a first recording of one message on the same collection / data set objects, stopped, then recording starts again
+        yield from c.co_update(MSGS[4])
+        yield from c.co_stop()
+        for k, ds in enumerate(c.datasets):
+            ds.file_name_fmt = "second%d" % k       # the real logger's file names carry a timestamp: a new name per recording
+        c.start()
     for i in range(n):
         if flush[i]:
             Clock.t += 20.0          # past the periodic flush deadline (WRITE_PERIOD 15 s)
@@ -353,7 +366,17 @@ def scenario(flush, subdiv, sched):
         with NoTracing():
             for k, ds in enumerate(sets):
                 sel = [MSGS[i] for i in range(n) if i != pause_at and (k == 0 or MSGS[i].type_id == cd.MT_MODULE_READY)]
-                got = read_back(fmt, files_of(root, k))
+                paths = files_of(root, k)
+                if sh("restart", 0):
+                    first = [p for p in paths if p.name.startswith("file")]
+                    paths = [p for p in paths if p.name.startswith("second")]
+                    sel1 = [MSGS[4]] if (k == 0 or MSGS[4].type_id == cd.MT_MODULE_READY) else []
+                    got1 = read_back(fmt, first)
+                    if fmt == "raw":
+                        got1 = b"".join(x[1] for x in got1)
+                    if got1 != expect(fmt, sel1):
+                        return False, "data set %d: the first recording's files do not hold exactly its messages" % k
+                got = read_back(fmt, paths)
                 want = expect(fmt, sel)
                 if fmt == "raw":
                     got = b"".join(x[1] for x in got)
